@@ -24,8 +24,8 @@ TABLE = {
           "Proved for all observation lists, tie patterns, gamma, forget factors, kernels with 0<=k(z,x)<=k(x,x), evaluation points and lie sequences: split sizes max(floor(gamma*m),3), order, permutation, error-iff; value multisets independent of tie order; densities are non-negative kernel means with the floor; ratio formula and range (0,1/gamma]; a lie never lowers the density of its set at its location; bandwidths valid and positive in both branches; search split rule.",
           "Not modelled: IEEE rounding (conditioning-aware tolerances); int(gamma*n) vs exact floor accepted either way within 4*2^-53 of an integer; search with no violators gives gamma=0 (outside the quantifier).", "3/C16"),
   "C03": ("Lean 4 proof over a polymorphic Arith kernel model (Real instance for theorems, Float instance executed bit-exactly against the library)",
-          "Proved over Real for all dimensions, hyperparameters and points: closed forms, agreement of the three r^2 formulas, k(x,x)=alpha, symmetry, translation invariance, 0<phi<=1, antitone in r, entry points agree, noise on the diagonal only, multitask = alpha*physical*task, SE Gram PSD (power series + Schur products), PSD closed under Hadamard/non-negative diagonal, validHyper iff all finite and > 0 (incl. multitask alpha), set/get identity. Tied by running the same definitions on Float against covariance/build_kernel_matrix/hyperparameters/constructor errors for 4 radial kernels and 9 multitask pairings.",
-          "Not proved: PSD of the three Matern profiles (Schoenberg/Bochner; exact LDL^T certificate is a labelled test). IEEE rounding and overflow beyond 1e150 not modelled.", "3/C03"),
+          "Proved over Real for all dimensions, hyperparameters and points: closed forms, agreement of the three r^2 formulas, k(x,x)=alpha, symmetry, translation invariance, 0<phi<=1, antitone in r, entry points agree, noise on the diagonal only, multitask = alpha*physical*task, Gram matrices PSD for all four radial kernels and the tensor kernel (SE by power series + Schur products; the three Matern profiles as Gaussian scale mixtures, with the subordination integrals proved from Mathlib's Gaussian integral), PSD closed under Hadamard/non-negative diagonal, validHyper iff all finite and > 0 (incl. multitask alpha), set/get identity. Tied by running the same definitions on Float against covariance/build_kernel_matrix/hyperparameters/constructor errors for 4 radial kernels and 9 multitask pairings.",
+          "IEEE rounding and overflow beyond 1e150 not modelled: PSD is a theorem about the exact kernel; the float Gram matrices get an exact LDL^T certificate per run (labelled test).", "3/C03"),
   "C09": ("Lean 4 proof on an exact Rat model (shared domain model Model/Domain.lean) + differential correspondence (equality off ties, membership in a tie-liberal spec on ties) + direct oracles",
           "Proved for all domains, points and RNG outcomes: decode(encode x)=x (exact draw condition; and under arg-max), decode of any relaxed-polytope point is admissible (doubles unchanged, ints half-even nearest within integral bounds, grid nearest, categorical in elements, constraints preserved), int-feasible snap returns only feasible floor/ceil neighbours and drops nothing when each row has one, arg-max rounding, length-scale round trips, task snap nearest, lattice neighbours stay in the box.",
           "Not modelled: IEEE rounding of |x-q| (elements within 1+2^-51 of the minimal distance accepted as nearest); the sampling distribution of the temperature draw; aliasing/in-place mutation.", "3/C09"),
